@@ -461,8 +461,10 @@ def run(chk: Check) -> None:
     rule_l7(chk)
     rule_l8(chk)
     # L9: a request the limiter refused never reaches a handler (= C04.M1, machine)
-    from .c04 import rule_m1
+    from .c04 import rule_m1, rule_m1c
     from .common import reuse
+
+    reuse(chk, rule_m1c, "L10", "an installed limiter is consulted even while it tracks nothing: the chain object is never falsy, or its presence is tested with `is not None` (= C04.M1c)", ("M1c",))
 
     reuse(chk, rule_m1, "L9", "a handler is dispatched only after the chain's truthy verdict in its own callback, or with no chain configured: a request answered 44 is not served (= C04.M1)", ("M1",))
     chk.trusted = ["CPython ast parser", "engine CFG / abstract evaluator", "asyncio runs coroutines without preemption between awaits"]
